@@ -7,8 +7,8 @@ class C05(LogCheck):
     vfiles = VFILES + ["Properties/Properties_C05.v"]
     ocaml = OCAML
     corpus = "C05.txt"
-    level_text = ("Twenty-five theorems proved in Coq for ALL compile-time minima, thresholds, filter expressions (and/or/not/null over any "
-                  "number of threshold filters, incl. the not<not<F>> specialisation), severities, tags, item lists and sequence "
+    level_text = ("Twenty-seven theorems proved in Coq for ALL compile-time minima, thresholds, filter expressions (and/or/not/null over any "
+                  "number of threshold filters and user-written tag-reading filters, incl. the not<not<F>> specialisation and towers of n negations; the filter verdict is the one on the delivered record, tag included), severities, tags, item lists and sequence "
                   "sizes, over a Gallina model that follows stream.hpp/logger.hpp statement by statement (smart_stream's two "
                   "unique_ptrs, move construction along the << chain, destruction order of the temporaries, null_stream): the "
                   "trace of a statement in either syntactic form is exactly [calls; one Format; one Sink per member in declaration "
@@ -33,8 +33,8 @@ class C05(LogCheck):
                   "attribute is not observed; single thread only (C09 covers the *_mt sinks); correspondence is exhaustive over "
                   "the finite statement space in the thorough tier and sampled for multi-statement programs, not proved")
     rule = ("cases are programs `m<min> op…` over: threshold changes, one-expression statements, named stream objects "
-            "(open/put/close in 4 variables) and stream-type queries, for 12 logger types (filter shapes of depth <= 3 over two "
-            "threshold filters and the null filter; sink trees with 1-4 leaves: flat and nested sequences whose leaves take the text by const reference, by value or "
+            "(open/put/close in 4 variables) and stream-type queries, for 23 logger types (filter shapes of depth <= 3 over two "
+            "threshold filters and the null filter, 11 of them with user-written filters that accept/reject by the record's tag alone and under and/or/not with thresholds, not-towers of depth 2-3 over every leaf kind, exercised by a tag-filter grid over 7 tags incl. near misses of the filter's text; sink trees with 1-4 leaves: flat and nested sequences whose leaves take the text by const reference, by value or "
             "by rvalue overload, the by-value/rvalue/nested member in first, middle and last position; two record types with different attribute sets "
             "sharing the filter indices, one of them without a tag attribute), statements executed in four contexts (incl. inside a destructor while an exception propagates), items that put "
             "the stringstream into fail()/bad() before/between/after callables, threshold getters, and cross-record programs that "
